@@ -230,6 +230,11 @@ class FormatField(HeaderField):
         self.packer = struct.Struct(fmt)
         super().__init__(name=name, size=self.packer.size)
 
+    def set_byte_order(self, order):
+        """Use an explicit byte order ('<' or '>') instead of the host's."""
+        fmt = self.packer.format.lstrip("@=<>!")
+        self.packer = struct.Struct(order + fmt)
+
     def encode(self, value):
         return self.packer.pack(value)
 
